@@ -331,7 +331,9 @@ fn parent(id: &str, rest: &[String]) -> i32 {
     // 2. regression corpus: every committed case for this property, strict
     let mut corpus_n = 0u64;
     let cdir = format!("{vd}/corpus/{id}");
-    if let Ok(rd) = std::fs::read_dir(&cdir) {
+    // VERIF_NO_CORPUS=1 measures what the generated search finds on its own (self-test only)
+    let rd = if std::env::var("VERIF_NO_CORPUS").is_ok() { Err(()) } else { std::fs::read_dir(&cdir).map_err(|_| ()) };
+    if let Ok(rd) = rd {
         let mut files: Vec<_> = rd.filter_map(|e| e.ok()).map(|e| e.path()).filter(|p| p.extension().map(|x| x == "json").unwrap_or(false)).collect();
         files.sort();
         for p in files {
